@@ -62,6 +62,9 @@ class LogAgent(Agent):
         st = m.script.get("state", {}).get(str(k), {}).get(str(self.id))
         if st is not None:
             self.state = st
+        # a property re-declared with another type: script["retype"][k] = {id: {name: {"type": .., "value": ..}}}
+        for name, spec in (m.script.get("retype", {}).get(str(k), {}).get(str(self.id)) or {}).items():
+            self.set_property(name, copy.deepcopy(spec))
         pv = m.script.get("prop", {}).get(str(k), {}).get(str(self.id))
         if pv is not None:
             for name, val in pv.items():
